@@ -66,6 +66,7 @@ type Case struct {
 	Prio     []string `json:"prio,omitempty"`
 	Allow    bool     `json:"allow,omitempty"`
 	Trail    int      `json:"trail,omitempty"` // extra zero bytes after the end-of-archive marker of the input
+	Split    []int    `json:"split,omitempty"` // writer mode: entry indices at which a further AppendTar call starts
 	Ops      []Ent    `json:"ops"`             // the input tar (called ops so that the driver shrinks it)
 }
 
@@ -113,10 +114,31 @@ func typeflag(t string) byte {
 }
 
 // makeTar serialises the case's entries with the standard library's tar writer.
-func makeTar(c Case) []byte {
+func makeTar(c Case) []byte { return makeTarRange(c, 0, len(c.Ops)) }
+
+// callRanges returns the entry ranges of the successive AppendTar calls.
+func callRanges(c Case) [][2]int {
+	var cuts []int
+	if c.Mode == "writer" {
+		for _, x := range c.Split {
+			if x > 0 && x < len(c.Ops) && (len(cuts) == 0 || x > cuts[len(cuts)-1]) {
+				cuts = append(cuts, x)
+			}
+		}
+	}
+	var rs [][2]int
+	lo := 0
+	for _, x := range append(cuts, len(c.Ops)) {
+		rs = append(rs, [2]int{lo, x})
+		lo = x
+	}
+	return rs
+}
+
+func makeTarRange(c Case, lo, hi int) []byte {
 	var buf bytes.Buffer
 	tw := tar.NewWriter(&buf)
-	for _, e := range c.Ops {
+	for _, e := range c.Ops[lo:hi] {
 		h := &tar.Header{Name: e.Name, Typeflag: typeflag(e.Type), Mode: e.Mode, Uid: e.UID, Gid: e.GID,
 			Uname: e.Uname, Gname: e.Gname, Linkname: e.Link, Devmajor: e.Major, Devminor: e.Minor}
 		if e.MTime != 0 {
@@ -260,7 +282,7 @@ type result struct {
 	closes    []int64
 }
 
-func run(c Case, in []byte) (res result) {
+func run(c Case, in []byte, calls [][]byte) (res result) {
 	res.uncSize = -1
 	defer func() {
 		if r := recover(); r != nil {
@@ -329,7 +351,11 @@ func run(c Case, in []byte) (res result) {
 		if c.Mode == "lossless" {
 			err = w.AppendTarLossLess(bytes.NewReader(in))
 		} else {
-			err = w.AppendTar(bytes.NewReader(in))
+			for _, part := range calls {
+				if err = w.AppendTar(bytes.NewReader(part)); err != nil {
+					break
+				}
+			}
 		}
 		if err != nil {
 			res.errText = err.Error()
@@ -768,7 +794,18 @@ func exec(c Case) (o outcome) {
 		panic("generator produced an unreadable tar: " + err.Error())
 	}
 	seq, prioNotFound := processed(c, inView)
-	res := run(c, in)
+	var calls [][]byte
+	rgs := callRanges(c)
+	for _, rg := range rgs {
+		calls = append(calls, compressInput(makeTarRange(c, rg[0], rg[1]), c.InComp))
+	}
+	if len(rgs) > 1 {
+		count("writer.multicall")
+		if c.MinChunk > 0 {
+			count("writer.multicall.minchunk")
+		}
+	}
+	res := run(c, in, calls)
 	count("mode." + c.Mode)
 	count("fmt." + c.Fmt)
 	count("incomp." + c.InComp)
@@ -1247,7 +1284,9 @@ func exec(c Case) (o outcome) {
 	}
 	tlen := int64(0)
 	if c.Mode == "lossless" {
-		tlen = rest
+		// from the INPUT: the raw bytes after the last entry's padding (end-of-archive marker and anything after it)
+		_, tlen, _ = tarWalk(raw)
+		_ = rest
 	}
 	var cs []int64
 	for _, m := range pm {
@@ -1428,6 +1467,12 @@ func gen(r *hx.Rng) Case {
 		at := r.Intn(len(c.Ops) + 1)
 		c.Ops = append(c.Ops[:at], append([]Ent{{Type: "xglobal"}}, c.Ops[at:]...)...)
 	}
+	if c.Mode == "writer" && len(c.Ops) > 1 && r.Chance(2, 5) {
+		c.Split = []int{r.Range(1, len(c.Ops)-1)}
+		if r.Bool() && c.Split[0]+1 < len(c.Ops) {
+			c.Split = append(c.Split, r.Range(c.Split[0]+1, len(c.Ops)-1))
+		}
+	}
 	if c.Mode == "build" && len(top) > 0 && r.Chance(1, 3) {
 		k := r.Range(1, 2)
 		for i := 0; i < k; i++ {
@@ -1472,6 +1517,9 @@ func main() {
 		{Mode: "build", Fmt: "zstd", Chunk: 100, Workers: 8, InComp: "zstd", Ops: []Ent{reg("a", 1), reg("b", 1), reg("c", 1), reg(tocName, 50), reg(noPrefetchLM, 1), reg("d", 1000)}},
 		{Mode: "lossless", Fmt: "gzip", Chunk: 100, Level: 1, InComp: "none", Ops: []Ent{reg("a", 10), reg(tocName, 5)}},
 		{Mode: "build", Fmt: "ext", Chunk: 100, Level: 1, Workers: 2, InComp: "none", Ops: []Ent{}},
+		// two AppendTar calls sharing one compression stream (C03-fix-1)
+		{Mode: "writer", Fmt: "gzip", MinChunk: 5000, Level: 1, InComp: "none", Split: []int{1}, Ops: []Ent{reg("a", 300), reg("b", 200)}},
+		{Mode: "writer", Fmt: "zstd", Chunk: 100, MinChunk: 300, InComp: "gzip", Split: []int{1, 2}, Ops: []Ent{reg("a", 250), reg("b", 200), {Name: "d/", Type: "dir", Mode: 0o755}, reg("c", 1)}},
 	}
 	for _, c := range corpus {
 		emit(c)
